@@ -1,6 +1,7 @@
 import Gv.Oracle.Common
 import Gv.Model.Compress
 import Gv.Spec.Bag
+import Gv.Spec.Dedup
 /-! Oracle handlers for C13 (de-duplication and site compression). -/
 namespace Gv.Oracle.DedupOps
 open Gv Gv.Oracle Gv.Model
@@ -22,9 +23,10 @@ def handle : Handler := fun op args impl =>
       strJoin (r.2.2.map fun grp => "+".intercalate grp) ++ " idem=1"
     -- predicate, stated independently: first occurrences in order, groups partition the names
     let key := dedupKey b0.alphabet g
-    let firsts := rows.zipIdx.filter fun (x, i) => !((rows.take i).any fun y => key y.2 == key x.2)
-    let groups := firsts.map fun (x, _) => (rows.filter fun y => key y.2 == key x.2).map Prod.fst
-    let exp := "ok " ++ toString (lenOf rows) ++ " " ++ encRows (firsts.map Prod.fst) ++ " " ++
+    -- (`Spec.firstOccs` / `Spec.groupsOf`: the very definitions the theorems of `Gv.Props.C13` are about)
+    let firsts := Spec.firstOccs key rows
+    let groups := Spec.groupsOf key rows
+    let exp := "ok " ++ toString (lenOf rows) ++ " " ++ encRows firsts ++ " " ++
       strJoin (groups.map fun grp => "+".intercalate grp) ++ " idem=1"
     some ⟨m, verdictOf (impl == exp) "dedup-spec"⟩
   | "compress", [_, rows] => do
